@@ -534,13 +534,15 @@ theorem C15_later_statements_change_no_variable (sys : Sys Root) (hist more : Li
 /-- **Endpoint values.** A clone of an endpoint is that endpoint; connecting (`&self`) changes
 nothing, so the same endpoint connected twice, or a clone of it, decides the same way; and
 `tls_config` on an existing endpoint (or a clone of one) gives what it gives on a fresh endpoint
-for the same URI — the connector it had before plays no part. -/
+for the same URI — the connector it had before plays no part (the origin override, which `tls_config`
+does not read, stays). -/
 theorem C15_endpoint_values (sys : Sys Root) (p : Proc Root Chain) (e c : Nat)
     (ep : Endpoint Root Chain) (cfg : ClientTlsConfig Root Chain)
     (he : p.eps[e]? = some (.ok ep)) (hc : p.cfgs[c]? = some cfg) :
     (p.exec sys (.cloneEndpoint e)).eps.getLast? = some (.ok ep) ∧
     p.exec sys (.connect e) = p ∧
-    (p.exec sys (.tlsConfig e c)).eps.getLast? = some ((Endpoint.fromShared ep.uri).tlsConfig sys cfg) := by
+    (p.exec sys (.tlsConfig e c)).eps.getLast? =
+      some (((Endpoint.fromShared ep.uri).tlsConfig sys cfg).map (fun x => { x with origin := ep.origin })) := by
   refine ⟨by simp [Proc.exec, he], rfl, ?_⟩
   simp [Proc.exec, he, hc, tlsConfig_replaces sys ep cfg]
 
@@ -630,6 +632,55 @@ theorem C15_generated_client_keeps_caller_configuration_asis_fails :
   ⟨[.caCertificate (some [.ca1])], { scheme := some .https, host := some "good.test" }, _, _,
    { chain := [.s2good], clientAuth := .off, alpn := [alpnH2] },
    rfl, rfl, rfl, rfl, by decide, by decide⟩
+
+/-- **`Endpoint::origin` plays no part in authenticating the peer.**  The origin override is what `AddOrigin`
+writes into requests; whether it is set before or after `tls_config`, to the endpoint's own host or to any
+other one (a proxy or load balancer reached by address): `tls_config` builds the same connector — the name the
+server is authenticated against is the configured `domain_name`, else the endpoint URI's host — and
+`Connector::call` decides the same way.  So every admission theorem above holds verbatim of endpoints with an
+origin. -/
+theorem C15_origin_plays_no_part (sys : Sys Root) (ep : Endpoint Root Chain) (o : Uri)
+    (cfg : ClientTlsConfig Root Chain) (dialOk : Bool) (hs : ClientHello Root Chain → ClientView) :
+    (ep.setOrigin o).tlsConfig sys cfg = (ep.tlsConfig sys cfg).map (·.setOrigin o) ∧
+    Connector.call (ep.setOrigin o) dialOk hs = Connector.call ep dialOk hs ∧
+    (∀ ep', (ep.setOrigin o).tlsConfig sys cfg = .ok ep' →
+      ∃ ep'', ep.tlsConfig sys cfg = .ok ep'' ∧ ep'.tls = ep''.tls ∧ ep'.uri = ep''.uri ∧
+        Connector.call ep' dialOk hs = Connector.call ep'' dialOk hs) := by
+  have h1 : (ep.setOrigin o).tlsConfig sys cfg = (ep.tlsConfig sys cfg).map (·.setOrigin o) := by
+    simp only [Endpoint.tlsConfig, Endpoint.setOrigin]
+    cases cfg.intoTlsConnector sys ep.uri <;> rfl
+  refine ⟨h1, rfl, ?_⟩
+  intro ep' h
+  rw [h1] at h
+  cases h2 : ep.tlsConfig sys cfg with
+  | error e => simp [h2, Except.map] at h
+  | ok ep'' =>
+    simp only [h2, Except.map, Except.ok.injEq] at h
+    subst h
+    exact ⟨ep'', rfl, rfl, rfl, rfl⟩
+
+open Tls.TestPki in
+/-- `C15_origin_plays_no_part` has content: of a `tls_config` that takes the server name from the overridden
+origin (`Endpoint.tlsConfigOriginName`, the shape of seeded change C15f: "the origin plays the role of SNI") it
+is FALSE, and so is the property.  In the test world: an endpoint for `https://bad.test` trusting CA 1, with
+`origin("https://good.test")` set before `tls_config`, connects (h2) to a server whose certificate is valid for
+`good.test` only — it does not verify for the host the caller named.  Same case as the corpus line
+`tls https+oBhttps bad ca:ca1 ; s1good h2 - tcp`. -/
+theorem C15_origin_plays_no_part_fails_with_origin_as_name :
+    ∃ (ops : List (ClientOp Cert (List Cert))) (uri o : Uri) (ep' : Endpoint Cert (List Cert))
+      (srv : ServerHello Cert (List Cert)),
+      ((Endpoint.fromShared uri).setOrigin o).tlsConfigOriginName (sysWith false []) (ClientTlsConfig.build ops) = .ok ep' ∧
+      uri.scheme = some .https ∧
+      Connector.call ep' true (fun c => (handshake c srv).client) = .ok (.tls (some alpnH2)) ∧
+      expectedName ops uri = some "bad.test" ∧
+      verifies (configuredRoots (sysWith false []) ops) srv.chain "bad.test" = false ∧
+      -- while the code refuses this server
+      (∃ ep'', ((Endpoint.fromShared uri).setOrigin o).tlsConfig (sysWith false []) (ClientTlsConfig.build ops) = .ok ep'' ∧
+        Connector.call ep'' true (fun c => (handshake c srv).client) = .error (.badCert .nameMismatch)) :=
+  ⟨[.caCertificate (some [.ca1])], { scheme := some .https, host := some "bad.test" },
+   { scheme := some .https, host := some "good.test" }, _,
+   { chain := [.s1good], clientAuth := .off, alpn := [alpnH2] },
+   rfl, rfl, rfl, by decide, by decide, ⟨_, rfl, rfl⟩⟩
 
 /-- **The last `Server::tls_config` decides; `Server::layer` is invisible.** For every `Server`
 builder chain (any number of `tls_config` calls and `layer` calls in any order) that comes
